@@ -186,8 +186,13 @@ pub fn get_solidity_version_from_source_unit(source_unit: SourceUnit) -> Option<
             let minor_major_patch_version =
                 get_solidity_major_minor_patch_version(&solidity_version_literal.string)
                     .iter()
-                    .map(|f| f.parse::<i32>().unwrap())
+                    .filter_map(|f| f.parse::<i32>().ok())
                     .collect::<Vec<i32>>();
+
+            //a version component that does not fit an i32 is not a usable version
+            if minor_major_patch_version.len() != 3 {
+                return None;
+            }
 
             return Some((
                 minor_major_patch_version[0],
